@@ -144,6 +144,10 @@ class StmtMixin:
                 s.heap[a.oid] = self.seq_concat(ad, self.as_seq(b, s, node))
                 out.append((s, (NEXT,)))
                 continue
+            if isinstance(ad, VAbs) and isinstance(node.op, ast.Mult) and hasattr(ad, "ite_with") and type(ad).__name__ == "AbsGrid":
+                ad.call_method("__imul__", [b], {}, s, self)      # in-place elementwise product
+                out.append((s, (NEXT,)))
+                continue
             for s2, r in self.binop(node.op, a, b, s, node):
                 self.assign_target(node.target, r, s2)
                 out.append((s2, (NEXT,)))
@@ -625,6 +629,9 @@ class StmtMixin:
                     if l is loop_node and key not in ("at_start", "at_end_ghost"):
                         continue
                     res |= set(sp.get(key, {}).keys())
+        if any(isinstance(n, ast.Subscript) and isinstance(n.ctx, ast.Store) or isinstance(n, ast.AugAssign)
+               for stmt in loop_node.body for n in ast.walk(stmt)):
+            res.add("g_gridver")
         eff = c.get("ghost_effects", {})
         from .absobj import GHOST_METHODS, GHOST_ANY_CALL
         for stmt in loop_node.body:
